@@ -626,6 +626,6 @@ ORACLES = {"pointwise": case_pointwise, "optimize": case_optimize}
 
 
 def run(ctx):
-    ctx.drive("pointwise", formulation_cases(), case_pointwise, quick=100, thorough=500)
+    ctx.drive("pointwise", formulation_cases(), case_pointwise, quick=220, thorough=500)
     if ctx.tier == "thorough":
         ctx.drive("optimize", convex_problems(), case_optimize, quick=1, thorough=4)
